@@ -165,6 +165,23 @@ def ruleRun (inst : List (String × V)) (p : PyExpr) : Outcome :=
   | some v => if v.truthy then .returns v else .assertionError
   | none => .raises
 
+/-! ## LOGICAL operands that may be UNKNOWN
+
+`AND OR NOT XOR` are written `and or not !=`; the runtime's UNKNOWN is `Unknown = LOGICAL()`, a plain object: truthy, equal
+only to itself.  Python's reading of the four operators on `True`, `False` and that object: -/
+
+inductive L3 | t | f | u
+  deriving DecidableEq, Repr
+
+/-- `a and b`: `b` when `a` is truthy (True, Unknown), else `a` -/
+def pyAnd3 (a b : L3) : L3 := match a with | .f => .f | _ => b
+/-- `a or b`: `a` when `a` is truthy, else `b` -/
+def pyOr3 (a b : L3) : L3 := match a with | .f => b | _ => a
+/-- `not a`: False for a truthy operand -/
+def pyNot3 (a : L3) : L3 := match a with | .f => .t | _ => .f
+/-- `a != b` (how XOR is written): identity for the Unknown object, value for the booleans -/
+def pyXor3 (a b : L3) : L3 := if a = b then .f else .t
+
 /-! ## REPEAT with an increment control (`LOOPpyout`): `for i in range(a, <stop>, s)` -/
 
 /-- the stop value `LOOPpyout` writes for `REPEAT i := a TO b BY s`: the bound itself, or — regenerated
@@ -181,6 +198,13 @@ def pyRange : Nat → Int → Int → Int → List Int
 end StepModel.GenPy.Body
 
 namespace StepModel.GenPy.Spec.Body
+open StepModel.GenPy.Body
+
+/-- ISO 10303-11 12.4.1–12.4.4: the three-valued tables -/
+def not3 : L3 → L3 | .t => .f | .f => .t | .u => .u
+def and3 (a b : L3) : L3 := if a = .f ∨ b = .f then .f else if a = .u ∨ b = .u then .u else .t
+def or3 (a b : L3) : L3 := if a = .t ∨ b = .t then .t else if a = .u ∨ b = .u then .u else .f
+def xor3 (a b : L3) : L3 := if a = .u ∨ b = .u then .u else if a = b then .f else .t
 
 /-- ISO 10303-11 13.9.1: the values the loop variable of `REPEAT i := a TO b BY s` takes, in order: the loop ends as soon
 as the variable is above the bound (s > 0) / below it (s < 0); at most `fuel` values -/
